@@ -41,6 +41,12 @@ def cases(tier, seed):
     for layers in ([[t] for t in TYPES] + ([list(p) for p in pairs] if tier == "thorough" else [["map", "poll"], ["poll", "map"], ["retry", "poll"]])):
         out.append({"name": "pair.route-instr/%s" % ">".join(layers), "kind": "route", "layers": layers,
                     "cap": None if len(layers) == 1 else (60 if tier == "quick" else 400), "gran": "instr"})
+    # work handed through a blocking throttle below a retry layer, ended by the delegate's own threads: no outcome is
+    # dropped (shared with C04, which looks at the same runs for blocking)
+    for above in ([], ["map"]):
+        for how in ("value", "exc"):
+            out.append({"name": "stack.blocking-throttle/%s/%s" % (">".join(["throttle", "retry"] + above), how), "kind": "blockretrym",
+                        "above": above, "how": how})
     for a in TYPES:
         # a poll function that raises once: exactly the submissions it was shown fail with that exception
         out.append({"name": "pair.route-raise/%s>poll" % a, "kind": "route", "layers": [a, "poll"], "cap": cap * 2, "poll_raise": True})
@@ -111,10 +117,31 @@ def run_fuzz(case, res):
             errors = []
             TR.set_fuzz(rng.choice([0.01, 0.03, 0.08]), rng.random())
 
-            def submitter(k):
-                for sid in range(k, nsub, nthreads):
+            # the last third of the submissions are follow-ups: each is submitted from a done-callback of an earlier
+            # submission (on whatever thread completes that one), as chained work would be
+            # (not with a blocking throttle in the stack: a submit() that may block, issued from the delegate's own worker
+            # thread, can starve itself - that is the workload's deadlock, not the library's)
+            blocking = any(L.get("block") for L in spec["layers"])
+            nfollow = nsub // 3 if (rng.random() < 0.5 and not blocking) else 0
+            first = nsub - nfollow
+            follow_evt = [instr._RealEvent() for _ in range(nsub)]
+
+            def follow_up(parent_sid, sid):
+                def cb(_f):
                     try:
                         futs[sid] = b.top.submit(fns[sid], *args[sid][0], **args[sid][1])
+                    except BaseException as e:
+                        errors.append((sid, e))
+                    follow_evt[sid].set()
+                return cb
+
+            def submitter(k):
+                for sid in range(k, first, nthreads):
+                    try:
+                        futs[sid] = b.top.submit(fns[sid], *args[sid][0], **args[sid][1])
+                        child = first + sid
+                        if child < nsub:
+                            futs[sid].add_done_callback(follow_up(sid, child))
                     except BaseException as e:
                         errors.append((sid, e))
             acts = [ctx.actor("S%d" % k, submitter, k).go() for k in range(nthreads)]
@@ -132,7 +159,16 @@ def run_fuzz(case, res):
                 res.violation("submit-raised/%s" % type(e).__name__, "%s: submit of %d raised %r" % (label, sid, e))
             ok_all = True
             deadline = instr._real_monotonic() + 20.0  # shared by all submissions of this execution
+            for sid in range(first, nsub):
+                # follow-ups exist once their parent is done (checked first below, in submission order)
+                pass
             for sid in range(nsub):
+                if sid >= first and futs[sid] is None:
+                    follow_evt[sid].wait(max(0.0, deadline - instr._real_monotonic()))
+                    if futs[sid] is None and not any(s_ == sid for s_, _ in errors):
+                        res.violation("outcome-dropped/follow-up-never-submitted", "%s: the done-callback that submits follow-up %d never ran "
+                                      "or its submit() never returned (parent %s)" % (label, sid, outcome_repr(outcome(futs[sid - first]))
+                                                                                     if futs[sid - first] is not None else "?"))
                 if futs[sid] is None:
                     continue
                 ok_all &= bool(check_submission(res, label, spec, scripts[sid], fns[sid], futs[sid], args[sid],
@@ -279,6 +315,9 @@ def run_route(case, res):
 
 
 def run_case(case, res):
+    if case["kind"] == "blockretrym":
+        from . import c04
+        return c04.run_blockretrym(case, res)
     if case["kind"] == "fuzz":
         run_fuzz(case, res)
     else:
